@@ -1086,6 +1086,29 @@ package eval
 //@     invariant [earlier-slots-kept] (LAYPREFIX $e)
 //@     invariant [rest-of-tree-untouched] (LAYOUTSIDE (pos $root) (+ (pos $root) (TS $root)))
 
+// C06 / C09 — the parent table: a breadth-first walk over the AST that copies every visited node's parent link to the slot
+// of its own index.  Given that every AST node carries an index inside the program and a parent link in [-1, n) (what
+// calAndSetNodes leaves behind), the walk never indexes outside the table and the table it installs has one entry per
+// program node, each in [-1, n), in memory allocated by the call.  (That EVERY node is visited is not stated.)
+//@ macro (PARTREE $e) (forall ((t Int)) (! (=> (inTree t) (and (not (= t 0)) (<= 0 (AIDX t)) (< (AIDX t) (NLEN $e)) (<= -1 (APAR t)) (< (APAR t) (NLEN $e))
+//@      (allocated (fld (ref astNode t) children))
+//@      (forall ((j Int)) (! (=> (and (<= (off (fld (ref astNode t) children)) j) (< j (+ (off (fld (ref astNode t) children)) (len (fld (ref astNode t) children)))))
+//@                               (inTree (select (arr (fld (ref astNode t) children)) j)))
+//@                           :pattern ((select (arr (fld (ref astNode t) children)) j))))))
+//@      :pattern ((inTree t))))
+//@ func calAndSetParentIndex C06 C09
+//@   requires [tree] (and (not (= $e 0)) (inTree $root) (PARTREE $e) (<= 1 (NLEN $e)) (<= (NLEN $e) 32767))
+//@   ensures [one-entry-per-node] (and (= (len (fld $e parentIdx)) (NLEN $e)) (fresh (fld $e parentIdx)))
+//@   ensures [entries-are-node-indices-or-none] (forall ((j Int)) (! (=> (and (<= (off (fld $e parentIdx)) j) (< j (+ (off (fld $e parentIdx)) (len (fld $e parentIdx)))))
+//@        (and (<= -1 (select (arr (fld $e parentIdx)) j)) (< (select (arr (fld $e parentIdx)) j) (NLEN $e)))) :pattern ((select (arr (fld $e parentIdx)) j))))
+//@   ensures [tree-arrays-untouched] (ASTARRAYSKEPT)
+//@   loop 1
+//@     invariant [table] (and (fresh $f) (= (len $f) (NLEN $e)) (= (off $f) 0)
+//@        (forall ((j Int)) (! (=> (and (<= 0 j) (< j (NLEN $e))) (and (<= -1 (select (arr $f) j)) (< (select (arr $f) j) (NLEN $e)))) :pattern ((select (arr $f) j)))))
+//@     invariant [queue-in-tree] (and (fresh $queue)
+//@        (forall ((j Int)) (! (=> (and (<= (off $queue) j) (< j (+ (off $queue) (len $queue)))) (inTree (select (arr $queue) j))) :pattern ((select (arr $queue) j)))))
+//@     invariant [tree-arrays-untouched] (ASTARRAYSKEPT)
+
 // C02 / C06 — nesting reduction: rewrites the operand list only of the and/or node at hand, keeps the tree closed
 // (every operand of every node is a node of the tree, operator names stay strings), writes operand arrays only into
 // lists it allocated itself (arrays that existed before the call are untouched), never fails.
